@@ -6,6 +6,7 @@ from contextlib import contextmanager
 
 from . import model
 from . import options
+from . import file_processor
 from .file_processor import FileProcessor
 from .generators.base import GenerateError
 
@@ -67,17 +68,12 @@ def main(args):
                 emit.error("two inputs are named '%s': their outputs would overwrite each other" % basename)
             model_nodes[basename] = nodes
 
-    """ outputs are named after the base name of a file: two different files of one base name cannot both be used """
-    stems = {}
-    for path in sorted(file_processor_.files):
-        known = stems.setdefault(get_basename(path), path)
-        if known != path:
-            emit.error("two different files named '%s' are used: %s and %s" % (get_basename(path), known, path))
-
     try:
         generate_target_files(emit, serializers, model_nodes)
     except (EnvironmentError, UnicodeError) as e:
         emit.error("cannot write the output: %s" % e)
+    except RecursionError:
+        emit.error("input is nested too deeply (includes or type definitions)")
 
     return model_nodes
 
@@ -185,6 +181,8 @@ def error_on_exception(emit):
         emit.error(str(e))
     except UnicodeError as e:
         emit.error("input is not valid utf-8: %s" % e)
+    except file_processor.SameNameError as e:
+        emit.error(str(e))
     except EnvironmentError as e:
         emit.error("cannot read the input: %s" % e)
     except RecursionError:
